@@ -449,7 +449,7 @@ func TestCheck(t *testing.T) {
 			}
 		}
 	}
-	reps := r.Pick(3, 40)
+	reps := r.Pick(3, 100)
 	for rep := 0; rep < reps; rep++ {
 		h.Parallel(len(list), 16, func(i int) { run(r, list[i]) })
 	}
